@@ -303,42 +303,55 @@ def check(ctx):
             if nm != 'engine::Position::uci':
                 continue
             arg = nmf.s(kids(n)[1])
-            if '_pv_list[' not in arg:
-                continue
+            rng = None
+            if '_pv_list' not in arg:
+                # the loop variable of a range-for over the PV
+                a0 = strip_casts(kids(n)[1])
+                for lp_ in [a for a in f.ancestors(n) if a['k'] == 'CXXForRangeStmt']:
+                    lv = [x for x in walk(lp_) if x['k'] == 'VarDecl' and not (x.get('name') or '').startswith('__')]
+                    rv = [x for x in walk(lp_) if x['k'] == 'VarDecl' and (x.get('name') or '').startswith('__range')]
+                    if lv and rv and (a0.get('ref') or {}).get('id') == lv[0]['id'] and kids(rv[0]) and '_pv_list' in nmf.s(kids(rv[0])[0]):
+                        rng = (lp_, nmf.s(kids(rv[0])[0]), lv[0]['name'])
+                if rng is None:
+                    continue
             n_pp += 1
             obj = strip_casts(kids(kids(n)[0])[0]) if kids(kids(n)[0]) else None
-            idx = arg.split('_pv_list[', 1)[1].rsplit(']', 1)[0]
-            if idx == '0' and obj is not None and short(obj.get('ref', {}).get('n', '')) == '_position':
-                ctx.ob('C05.R4.pv-print', '%s:%s' % (short(f.name), arg), True,
-                       'the first PV move is formatted by the root position', site=f.loc(n))
-                continue
-            loops = [a for a in f.ancestors(n) if a['k'] == 'ForStmt']
             r = (obj or {}).get('ref', {})
             ok, why = False, ''
-            if not loops or counting_for(f, loops[0]) is None or for_init_const(loops[0]) != 0:
-                why = 'not inside a counting loop from 0'
+            if rng is None and '_pv_list[' in arg:
+                idx = arg.split('_pv_list[', 1)[1].rsplit(']', 1)[0]
+                if idx == '0' and obj is not None and short(obj.get('ref', {}).get('n', '')) == '_position':
+                    ctx.ob('C05.R4.pv-print', '%s:%s' % (short(f.name), arg), True,
+                           'the first PV move is formatted by the root position', site=f.loc(n))
+                    continue
+            loops = [a for a in f.ancestors(n) if a['k'] in ('ForStmt', 'CXXForRangeStmt')]
+            if not loops:
+                why = 'not inside a loop over the PV'
             elif r.get('k') != 'Local':
-                why = 'formatted by %s, which is not a local copy advanced along the PV' % nmf.s(obj) if obj is not None else '?'
+                why = 'formatted by %s, which is not a local copy advanced along the PV' % (nmf.s(obj) if obj is not None else '?')
             else:
                 lp = loops[0]
-                iv = next((x['name'] for x in f.all_nodes() if x['k'] == 'VarDecl' and x.get('id') == counting_for(f, lp)[0]), None)
-                init_ok = any(
-                    x['k'] == 'VarDecl' and x.get('id') == r['id'] and kids(x) and '_position' in nmf.s(kids(x)[0]) and
-                    not f.inside(x, lp) for x in f.all_nodes())
+                if lp['k'] == 'ForStmt':
+                    cf_ = counting_for(f, lp)
+                    iv = next((x['name'] for x in f.all_nodes() if x['k'] == 'VarDecl' and cf_ and x.get('id') == cf_[0]), None)
+                    whole = cf_ is not None and for_init_const(lp) == 0 and '_pv_list[' in arg and arg.split('_pv_list[', 1)[1].rsplit(']', 1)[0] == iv and \
+                        '_pv_list_length' in nmf.s(cf_[1]) and cf_[2] == '<'
+                else:
+                    whole = rng is not None and lp is rng[0] and '_pv_list_length' in rng[1] and ('_pv_list.data()' in rng[1] or '_pv_list.begin()' in rng[1])
+                init_ok = any(x['k'] == 'VarDecl' and x.get('id') == r['id'] and kids(x) and '_position' in nmf.s(kids(x)[0]) and
+                              not f.inside(x, lp) for x in f.all_nodes())
+                argk = Norm(f, inline=False).s(kids(n)[1])
                 adv = [m for m, c2, nm2 in f.calls() if nm2 == 'engine::Position::do_move' and f.inside(m, lp) and
                        kids(kids(m)[0]) and strip_casts(kids(kids(m)[0])[0]).get('ref', {}).get('id') == r['id'] and
-                       nmf.s(kids(m)[1]) == arg]
+                       (nmf.s(kids(m)[1]) == arg or Norm(f, inline=False).s(kids(m)[1]) == argk)]
                 others = [m for m, c2, nm2 in f.calls() if f.inside(m, lp) and m is not n and m not in adv and
                           kids(m) and kids(kids(m)[0]) and strip_casts(kids(kids(m)[0])[0]).get('ref', {}).get('id') == r['id'] and
                           not (m.get('callee') or {}).get('const')]
-                c = f.cfg
-                pos_ = c.position(n)
-                # every path from the formatting call back to the loop head passes the advancing do_move
-                back = {lp['ch'][3]['i']} if lp['ch'][3] else set()
-                skipped = c.path_avoiding(pos_, {m['i'] for m in adv}, back) if (adv and back and pos_) else [0]
-                ok = bool(init_ok and adv and skipped is None and not others and idx == iv)
-                why = 'copy of the root: %s; advanced by do_move(%s) on every iteration: %s; other mutations: %d' % (
-                    init_ok, arg, bool(adv and skipped is None), len(others))
+                after = bool(adv) and all(f.cfg.node_postdominates(m, n) or f.cfg.node_dominates(n, m) for m in adv[:1]) and \
+                    f.cfg.node_dominates(n, adv[0])
+                ok = bool(whole and init_ok and after and not others)
+                why = 'whole PV in order: %s; copy of the root: %s; advanced by do_move of the same move after formatting it: %s; other mutations: %d' % (
+                    whole, init_ok, after, len(others))
             ctx.ob('C05.R4.pv-print', '%s:%s' % (short(f.name), arg), ok,
                    'the k-th PV move is formatted by a copy of the root position that has been advanced through the k moves before it (%s)'
                    % why, site=f.loc(n))
